@@ -379,3 +379,112 @@ def package_mutations(repo, modname: str, names: set[str]):
             for node, kind in mutations_of(f, local):
                 out.append((f, node, kind))
     return out
+
+
+# ---------------------------------------------------------------------------
+# call graph (E1)
+# ---------------------------------------------------------------------------
+
+def callees(repo, fn: Func) -> set:
+    """Package functions that fn may call: resolved names, self.method, Class(...) -> __init__, and - as an over-approximation
+    for calls on objects of unknown type - every package method of that attribute name."""
+    out = set()
+    m = fn.module
+    methods_by_name = repo.__dict__.setdefault('_methods_by_name', None)
+    if methods_by_name is None:
+        methods_by_name = {}
+        for mod in repo.modules.values():
+            for q, f in mod.funcs.items():
+                if f.cls is not None:
+                    methods_by_name.setdefault(f.name, []).append(f)
+        repo._methods_by_name = methods_by_name
+    for n in ast.walk(fn.node):
+        if not isinstance(n, ast.Call):
+            continue
+        d = m.dotted(n.func)
+        tgt = repo.find_func(d) if d else None
+        if tgt is not None:
+            out.add(tgt)
+            continue
+        # class constructor
+        if d:
+            parts = d.split('.')
+            for i in range(len(parts) - 1, 0, -1):
+                mn = '.'.join(parts[:i])
+                if mn in repo.modules and parts[i] in repo.modules[mn].classes:
+                    init = repo.modules[mn].funcs.get(parts[i] + '.__init__')
+                    if init is not None:
+                        out.add(init)
+                    break
+        if isinstance(n.func, ast.Name):
+            # local closure / nested def
+            q = fn.qualname + '.' + n.func.id
+            if q in m.funcs:
+                out.add(m.funcs[q])
+            elif n.func.id in m.funcs:
+                out.add(m.funcs[n.func.id])
+        if isinstance(n.func, ast.Attribute):
+            if isinstance(n.func.value, ast.Name) and n.func.value.id == 'self' and fn.cls is not None:
+                q = fn.cls.name + '.' + n.func.attr
+                if q in m.funcs:
+                    out.add(m.funcs[q])
+                    continue
+            if isinstance(n.func.value, ast.Name) and n.func.value.id in m.classes:
+                q = n.func.value.id + '.' + n.func.attr
+                if q in m.funcs:
+                    out.add(m.funcs[q])
+                    continue
+            if m.dotted(n.func.value) and not repo.find_func(m.dotted(n.func.value)) and (m.dotted(n.func.value) or '').split('.')[0] in m.imports and not (m.imports.get((m.dotted(n.func.value) or '').split('.')[0], '').startswith('outrank')):
+                continue   # library call
+            for f in methods_by_name.get(n.func.attr, []):
+                if n.func.attr not in ('get', 'items', 'keys', 'values', 'copy', 'append', 'update', 'split', 'join', 'format', 'strip', 'replace', 'count', 'astype', 'tolist'):
+                    out.add(f)
+        # functions passed as arguments (pool.amap(f, ...))
+        for a in n.args:
+            if isinstance(a, ast.Name):
+                q = fn.qualname + '.' + a.id
+                if q in m.funcs:
+                    out.add(m.funcs[q])
+                elif a.id in m.funcs and a.id not in {p for p in fn.params}:
+                    out.add(m.funcs[a.id])
+    return out
+
+
+def reachable_funcs(repo, roots) -> list:
+    seen = []
+    stack = list(roots)
+    ids = set()
+    while stack:
+        f = stack.pop()
+        if id(f) in ids:
+            continue
+        ids.add(id(f))
+        seen.append(f)
+        stack.extend(callees(repo, f))
+    return seen
+
+
+def import_closure(repo, root_mod: str) -> set:
+    """package modules imported unconditionally (top-level statements, not under try/if/def) starting from root_mod"""
+    seen = set()
+    stack = [root_mod]
+    while stack:
+        mn = stack.pop()
+        if mn in seen or mn not in repo.modules:
+            continue
+        seen.add(mn)
+        m = repo.modules[mn]
+        # parent packages are imported too
+        parts = mn.split('.')
+        for i in range(1, len(parts)):
+            stack.append('.'.join(parts[:i]))
+        for s in m.tree.body:
+            targets = []
+            if isinstance(s, ast.Import):
+                targets = [a.name for a in s.names]
+            elif isinstance(s, ast.ImportFrom) and s.module:
+                targets = [s.module] + [f'{s.module}.{a.name}' for a in s.names]
+            for t in targets:
+                if t in repo.modules:
+                    stack.append(t)
+    return seen
